@@ -62,9 +62,7 @@ func (fc *FuncCtx) freshResults(base string, sig *types.Signature, st *State) []
 		so := fc.eng.sorts.sortOf(rt)
 		n := fc.q.fresh(fmt.Sprintf("%s%s_r%d", fc.pfx, base, i), so)
 		fc.q.assume(fc.wf(n, rt))
-		if _, ok := rt.Underlying().(*types.Pointer); ok {
-			fc.q.assume(fmt.Sprintf("(<= %s %s)", n, st.get("$wm")))
-		}
+		fc.q.assume(fc.allocd(n, rt, st.get("$wm")))
 		out = append(out, TV{T: n, S: so, G: rt})
 	}
 	return out
@@ -102,7 +100,13 @@ func (fc *FuncCtx) call(res ssa.Value, c *ssa.CallCommon, st *State, reach strin
 	if b, ok := c.Value.(*ssa.Builtin); ok && !c.IsInvoke() {
 		return fc.builtin(res, b, c, args, st, reach)
 	}
-	fc.atAsserts(c, args, st, reach)
+	matches := fc.atAsserts(c, args, st, reach)
+	if len(matches) > 0 {
+		defer func(c *ssa.CallCommon, args []TV) {
+			// ghost updates run after the call, in the post-state (set through fc.afterCall)
+		}(c, args)
+	}
+	fc.pendingSets = matches
 	if c.IsInvoke() {
 		recv := fc.v(c.Value)
 		key := "iface:" + c.Value.Type().String() + "." + c.Method.Name()
@@ -170,10 +174,10 @@ func (fc *FuncCtx) siteKey(c *ssa.CallCommon) string {
 }
 
 // atAsserts checks the caller's `at call` / `at effect` assertions for this site.
-func (fc *FuncCtx) atAsserts(c *ssa.CallCommon, args []TV, st *State, reach string) {
+func (fc *FuncCtx) atAsserts(c *ssa.CallCommon, args []TV, st *State, reach string) (sets []int) {
 	t := fc.topCtx()
 	if t.con == nil || len(t.con.Ats) == 0 || fc.top != nil {
-		return
+		return nil
 	}
 	key := fc.siteKey(c)
 	t.atSites[key]++
@@ -210,6 +214,10 @@ func (fc *FuncCtx) atAsserts(c *ssa.CallCommon, args []TV, st *State, reach stri
 			continue
 		}
 		t.atMatched[i]++
+		if r.Set != "" {
+			sets = append(sets, i)
+			continue
+		}
 		if env == nil {
 			vars := fc.namesAt(fc.curInstr)
 			all := args
@@ -229,6 +237,46 @@ func (fc *FuncCtx) atAsserts(c *ssa.CallCommon, args []TV, st *State, reach stri
 		fc.oblige(fmt.Sprintf("at@%s#%d", key, site), clauseLabel(r.C, i), reach, tt, "assertion at call to "+key+": "+r.C.Src, r.C.Tags)
 		fc.curEnv = nil
 	}
+	return sets
+}
+
+// runGhostSets executes the `at call ... set g = expr` updates of the call just
+// made, in its post-state (ret(...) and result names refer to this call).
+func (fc *FuncCtx) runGhostSets(in ssa.Instruction, st *State, reach string) *State {
+	sets := fc.pendingSets
+	fc.pendingSets = nil
+	if len(sets) == 0 {
+		return st
+	}
+	t := fc.topCtx()
+	vars := fc.namesAt(in)
+	if v, ok := in.(ssa.Value); ok {
+		if tv, ok := fc.val[v]; ok {
+			vars["result"] = tv
+			vars["result0"] = tv
+		}
+		if tup, ok := fc.tup[v]; ok {
+			for k, tv := range tup {
+				vars[fmt.Sprintf("result%d", k)] = tv
+			}
+			vars["result"] = tup[0]
+		}
+	}
+	st = st.clone()
+	env := fc.envFor(st, vars)
+	for _, i := range sets {
+		r := t.con.Ats[i]
+		if _, ok := fc.eng.cs.Spec.Ghosts[r.Set]; !ok {
+			panic(trErr("at ... set: " + r.Set + " is not a ghost variable"))
+		}
+		var v string
+		if err := catchTr(fmt.Sprintf("%s at-rule %d", t.fnName, i), func() { v = env.tr(r.C.E).T }); err != nil {
+			panic(trErr(err.Error()))
+		}
+		cur := st.get("G." + r.Set)
+		st.set("G."+r.Set, fmt.Sprintf("(ite %s %s %s)", reach, v, cur))
+	}
+	return st
 }
 
 // funcValKey names a function value by where it comes from: a parameter name, a
@@ -566,6 +614,10 @@ func (fc *FuncCtx) havocTarget(env *Env, target Expr, st *State, base string) {
 				st.havoc(h)
 			}
 			return
+		case "effects":
+			// effects(fn): whatever the closure passed as fn may assign (its own contract's assigns clause)
+			fc.havocClosureEffects(env, c.Args[0], st, base)
+			return
 		case "cell":
 			// cell("C.T", ref): one cell of a named heap
 			h := c.Args[0].(EStr).Val
@@ -601,6 +653,80 @@ func (fc *FuncCtx) havocTarget(env *Env, target Expr, st *State, base string) {
 	fresh := fc.q.fresh(fc.pfx+base, eng.sorts.sortOf(l.gt))
 	fc.q.assume(fc.wf(fresh, l.gt))
 	fc.storeLoc(l, st, fresh)
+}
+
+// closureOfArg finds the MakeClosure behind the actual argument bound to a callee parameter name.
+func (fc *FuncCtx) closureOfArg(env *Env, e Expr) *ssa.MakeClosure {
+	id, ok := e.(EIdent)
+	if !ok {
+		return nil
+	}
+	tv, ok := env.vars[id.Name]
+	if !ok {
+		return nil
+	}
+	for v, mc := range fc.closures {
+		if fc.val[v].T == tv.T {
+			return mc
+		}
+	}
+	// through ChangeType / MakeInterface
+	for v, vt := range fc.val {
+		if vt.T == tv.T {
+			switch x := v.(type) {
+			case *ssa.ChangeType:
+				if mc, ok := x.X.(*ssa.MakeClosure); ok {
+					return mc
+				}
+			}
+		}
+	}
+	return nil
+}
+
+func (fc *FuncCtx) havocClosureEffects(env *Env, arg Expr, st *State, base string) {
+	mc := fc.closureOfArg(env, arg)
+	if mc == nil {
+		panic(trErr(fmt.Sprintf("effects(%s): the argument is not a function literal of the caller", arg)))
+	}
+	cfn := mc.Fn.(*ssa.Function)
+	ccon := fc.eng.byKey[cfn.String()]
+	if ccon == nil || !ccon.HasAssigns {
+		// no contract: everything the closure body may write (syntactic)
+		mods, all := fc.eng.modset(cfn)
+		if all {
+			for k := range st.h {
+				delete(st.h, k)
+			}
+			st.parents = nil
+			return
+		}
+		for n := range mods {
+			st.havoc(n)
+		}
+		return
+	}
+	cenv := fc.closureEnv(mc, env.st, env.old)
+	for i, a := range ccon.Assigns {
+		fc.havocTarget(cenv, a, st, fmt.Sprintf("%s_c%d", base, i))
+	}
+	fc.topCtx().usedContracts[ccon.Key] = true
+}
+
+// closureEnv: free-variable names of the closure denote the captured cells.
+func (fc *FuncCtx) closureEnv(mc *ssa.MakeClosure, st, old *State) *Env {
+	cfn := mc.Fn.(*ssa.Function)
+	vars := map[string]TV{}
+	for i, fv := range cfn.FreeVars {
+		b := fc.v(mc.Bindings[i])
+		el, _ := deref(fv.Type())
+		l := b.L
+		if l == nil {
+			l = fc.eng.derefLoc(b.T, el)
+		}
+		vars[fv.Name()] = TV{L: l, G: el}
+	}
+	return &Env{fc: fc, vars: vars, st: st, old: old}
 }
 
 // inline executes the callee's body in place.
@@ -756,7 +882,15 @@ func (fc *FuncCtx) appendOp(res ssa.Value, c *ssa.CallCommon, args []TV, st *Sta
 	}
 	st.set(eh, fmt.Sprintf("(store %s %s %s)", h, narr, content))
 	tv := fc.setVal(res, fmt.Sprintf("(mk-slice %s %s %s %s)", narr, noff, n, ncap))
-	_ = tv
+	// the same facts in the elem_X vocabulary contracts use
+	ef := eng.elemFn(es)
+	nh := st.get(eh)
+	q.assume(fmt.Sprintf("(forall ((k Int)) (! (=> (and (<= 0 k) (< k (s-len %s))) (= (%s %s %s k) (%s %s %s k))) :pattern ((%s %s %s k))))", s.T, ef, nh, tv.T, ef, h, s.T, ef, nh, tv.T))
+	if lits := fc.varargElems(c.Args[1], st); lits != nil {
+		for i, el := range lits {
+			q.assume(fmt.Sprintf("(= (%s %s %s (+ (s-len %s) %d)) %s)", ef, nh, tv.T, s.T, i, el))
+		}
+	}
 	return st
 }
 
@@ -926,6 +1060,26 @@ func (e *Engine) callMods(caller *ssa.Function, c *ssa.CallCommon, out map[strin
 		if con.HasAssigns || con.Trusted || callee == nil {
 			out["$wm"] = true
 			e.contractMods(con, callee, c.Signature(), out)
+			for _, a := range con.Assigns {
+				if ec, ok := a.(ECall); ok && ec.Fn == "effects" {
+					delete(out, "*")
+					for _, arg := range c.Args {
+						v := arg
+						if ct, ok := v.(*ssa.ChangeType); ok {
+							v = ct.X
+						}
+						if mc, ok := v.(*ssa.MakeClosure); ok {
+							m, all := e.modsetRec(mc.Fn.(*ssa.Function), seen)
+							if all {
+								out["*"] = true
+							}
+							for k := range m {
+								out[k] = true
+							}
+						}
+					}
+				}
+			}
 			return
 		}
 	}
@@ -1071,6 +1225,8 @@ func (e *Engine) contractMods(con *Contract, callee *ssa.Function, sig *types.Si
 				}
 			case "cell":
 				out[x.Args[0].(EStr).Val] = true
+			case "effects":
+				// resolved by callMods from the actual arguments
 			case "fields":
 				if t := typeOf(x.Args[0]); t != nil {
 					if el, ok := deref(t); ok {
@@ -1127,6 +1283,20 @@ func (fc *FuncCtx) loopMods(li *loopInfo) {
 	for b := range li.body {
 		for _, in := range b.Instrs {
 			fc.eng.instrMods(fc.fn, in, li.mods, map[*ssa.Function]bool{fc.fn: true})
+		}
+	}
+	if t := fc.topCtx(); t.con != nil && fc.top == nil {
+		for _, r := range t.con.Ats {
+			if r.Set == "" {
+				continue
+			}
+			for b := range li.body {
+				for _, in := range b.Instrs {
+					if ci, ok := in.(ssa.CallInstruction); ok && r.Kind == "call" && fc.siteKey(ci.Common()) == r.Target {
+						li.mods["G."+r.Set] = true
+					}
+				}
+			}
 		}
 	}
 	// deferred calls run at exits only, but a RunDefers inside a loop body would be unusual
@@ -1265,6 +1435,11 @@ func (fc *FuncCtx) checkFrame(st *State, exit string) {
 		return
 	}
 	var names []string
+	for _, r := range fc.topCtx().con.Ats {
+		if r.Set != "" {
+			mods["G."+r.Set] = true
+		}
+	}
 	for n := range mods {
 		if !isBookkeepingHeap(n) {
 			names = append(names, n)
